@@ -4,7 +4,8 @@
 // (always optbits 0 = baseline and 8 = IncludeInvalidPolygons only, so that Coq can judge
 // "options only subtract" against the baseline of the same data).  Every option set is
 // converted twice (determinism) and the input is deep-copied before and compared after all
-// conversions (immutability; harness-only).
+// conversions; after each conversion the returned collection is overwritten completely, so an
+// output that aliases the input would show up as a modified input (immutability; harness-only).
 package main
 
 import (
@@ -284,7 +285,76 @@ func observe(o *osm.OSM, bits int, pr *problems) (fs []obsFeature) {
 	for _, f := range fc.Features {
 		fs = append(fs, observeFeature(f, pr))
 	}
+	scribble(fc)
 	return fs
+}
+
+// scribble overwrites everything reachable from the returned feature collection (tag maps,
+// meta maps, membership summaries, every coordinate).  If any of it aliased the input, the
+// comparison of the input with its deep copy at the end of the scene fails.
+func scribble(fc *geojson.FeatureCollection) {
+	junk := orb.Point{-777, -777}
+	for _, f := range fc.Features {
+		if m, ok := f.Properties["tags"].(map[string]string); ok && m != nil {
+			for k := range m {
+				m[k] = "~"
+			}
+			m["~"] = "~"
+		}
+		if m, ok := f.Properties["meta"].(map[string]interface{}); ok {
+			for k := range m {
+				delete(m, k)
+			}
+		}
+		if r, ok := f.Properties["relations"]; ok {
+			rv := reflect.ValueOf(r)
+			if rv.Kind() == reflect.Slice {
+				for i := 0; i < rv.Len(); i++ {
+					e := rv.Index(i)
+					for e.Kind() == reflect.Ptr || e.Kind() == reflect.Interface {
+						e = e.Elem()
+					}
+					if e.Kind() != reflect.Struct {
+						continue
+					}
+					if t := e.FieldByName("Tags"); t.IsValid() && t.Kind() == reflect.Map && !t.IsNil() && t.Type().Elem().Kind() == reflect.String {
+						for _, k := range t.MapKeys() {
+							t.SetMapIndex(k, reflect.ValueOf("~").Convert(t.Type().Elem()))
+						}
+					}
+					if ro := e.FieldByName("Role"); ro.IsValid() && ro.CanSet() && ro.Kind() == reflect.String {
+						ro.SetString("~")
+					}
+				}
+			}
+		}
+		switch g := f.Geometry.(type) {
+		case orb.LineString:
+			for i := range g {
+				g[i] = junk
+			}
+		case orb.Polygon:
+			for _, r := range g {
+				for i := range r {
+					r[i] = junk
+				}
+			}
+		case orb.MultiLineString:
+			for _, l := range g {
+				for i := range l {
+					l[i] = junk
+				}
+			}
+		case orb.MultiPolygon:
+			for _, p := range g {
+				for _, r := range p {
+					for i := range r {
+						r[i] = junk
+					}
+				}
+			}
+		}
+	}
 }
 
 // ---------- input: deep copy, known class ----------
